@@ -18,7 +18,7 @@ RULE = ("lengths {1,2,3,9,10,11,25,60} x topic mix {own, alternating, foreign-he
 ASSUMPTIONS = ["Redis and RabbitMQ are wire-level fakes (RabbitMQ: FIFO per priority, requeue to original position)",
                "single priority per run (priority order is randomised by design on redis)", "messages deliverable at enqueue time (no delay)"]
 EVAL_COUNTER = "deliveries_judged"
-REQUIRED = ["deliveries_judged", "mode_all", "mode_steady", "mode_reject", "returns_judged", "long_backlogs", "stale_delay_messages", "idle_polls_timed_out", "expired_messages_in_the_queue", "consume_calls_cancelled"]
+REQUIRED = ["deliveries_judged", "mode_all", "mode_steady", "mode_reject", "returns_judged", "long_backlogs", "stale_delay_messages", "idle_polls_timed_out", "expired_messages_in_the_queue", "consume_calls_cancelled", "mode_pause"]
 CASE_TIMEOUT = 120
 
 LENGTHS = [1, 2, 3, 9, 10, 11, 25, 60]
@@ -37,6 +37,8 @@ def gen_cases(tier, seed):
             combos = [c for c in combos if c[0] >= 9] + short[:8]
         # polls: the consumer is polled with a timeout on an empty queue (the call is cancelled while idle), bursts arrive later
         combos += [(b, mix, "polls") for b in (2, 3, 7) for mix in (("own", "alt") if tier == "quick" else MIXES)]
+        # pause: the consumer is paused for a moment (what a saturated worker does) while messages keep arriving
+        combos += [(2, "own", f"pause:{g}") for g in (0.03, 0.07, 0.25)]
         # cancel: a consume() waiting on an empty queue is cancelled k scheduling quanta after a burst has been enqueued
         combos += [(3, "own", f"cancel:{k}") for k in (range(0, 30) if tier == "quick" else range(0, 60))]
         reps = 1 if tier == "quick" else 3
@@ -107,7 +109,7 @@ async def scenario(loop, case, out, stats, fps, samples):
             seq += 1
             return id_
 
-        if mode != "polls" and not mode.startswith("cancel"):
+        if mode != "polls" and not mode.startswith("cancel") and not mode.startswith("pause"):
             for _ in range(n):
                 await enq()
         # a rabbit consumer with a topic filter and a small prefetch window can be blocked by foreign messages at the
@@ -154,6 +156,26 @@ async def scenario(loop, case, out, stats, fps, samples):
                         await enq()  # something enqueued after the return
                 else:
                     await mb.ack(key)
+        elif mode.startswith("pause"):
+            stats["mode_pause"] += 1
+            gap = float(mode.split(":")[1])
+            for rnd_i in range(4):
+                await cons.pause()
+                await enq()
+                await asyncio.sleep(gap)
+                await cons.unpause()
+                for _ in range(n):
+                    await enq()
+                    await asyncio.sleep(0.01)
+                while True:
+                    key = await take()
+                    if key is None:
+                        break
+                    await mb.ack(key)
+            # (a delivery the paused consumer bounced was returned to the queue: the server saw it, the ordering rule exempts it)
+            if kind == "rabbit":
+                for rid_ in set(rig.server.requeued_ids):
+                    returned_at.setdefault(rid_, None)
         elif mode.startswith("cancel"):
             stats["mode_cancel"] += 1
             k = int(mode.split(":")[1])
@@ -260,12 +282,16 @@ async def scenario(loop, case, out, stats, fps, samples):
                 out.append(V("starved", kind, "dropped-by-cancelled-consume", f"cancel after {mode.split(':')[1]} quanta: {dropped} taken from the consumer's local queue by the cancelled consume() and never handed out (still marked in flight)"))
             if other and not dropped:
                 out.append(V("starved", kind, ctx, f"{other} never delivered; state {[snap.get(i) for i in other]}"))
-        if mode in ("all", "polls") and set(delivered) != own:
+        if mode in ("all", "polls") or mode.startswith("pause"):
+            pass
+        if (mode in ("all", "polls") or mode.startswith("pause")) and set(delivered) != own:
             missing = sorted(own - set(delivered))[:5]
             if missing and not any(v["rule"] == "starved" for v in out):
                 out.append(V("starved", kind, ctx, f"consume-all left {missing} undelivered"))
         # returned messages: delivered again before anything enqueued after the return
         for id_, at in returned_at.items():
+            if at is None:
+                continue
             stats["returns_judged"] += 1
             poss = [i for i, x in enumerate(delivered) if x == id_]
             if len(poss) < 2:
